@@ -102,6 +102,16 @@ CHECKS = {
                      'pauses exactly p) and against ObsC20 (other runnable activities run between iterations).',
                 note='Periods and body durations are integers (model) or dyadic floats (random programs), so that the grid is '
                      'exact in floating point; negative periods are rejected by a separate direct call in the harness.'),
+    'C16': dict(obs='ObsC16', ref='4/C16',
+                text='Flow.tla enumerates every call of collect()/first() with <=3 (thorough: 4) activities x durations {0,1,2} '
+                     '(ties, zero) x outcome x count {0..4, None} x consumer {prompt, slow, early break, caller cancelled}; TLC '
+                     'checks the semantics operators (FlowSem) for sanity; every scenario runs on the real code and TLC validates '
+                     'the trace against ObsC16, which recomputes the expected result, order and times from FlowSem: collect result '
+                     'and time, failure content and time, first() order/times/count, ValueError, no loser code after the end.',
+                note='Exhaustive for the stated scenario space. first() with a suspending consumer and a failing activity is an open '
+                     'known finding (KF-C16-first-slow-consumer).',
+                technique='TLA+ functional spec FlowSem/Flow enumerated by TLC; all scenarios replayed on the real code; traces '
+                          'validated by TLC against the TLA+ monitor ObsC16'),
 }
 
 
